@@ -261,6 +261,8 @@ impl MqttShared {
         let mut queues = self.queues.borrow_mut();
         queues.waiters.clear();
         queues.released.clear();
+        // payload chunk waiting for write back-pressure to be lifted
+        self.streaming_waiter.take();
 
         if let Some(cb) = self.on_publish_ack.take() {
             for (idx, tx, _) in queues.inflight.drain(..) {
@@ -559,7 +561,9 @@ impl MqttShared {
                 return false;
             }
         }
-        true
+        // waiter could be woken by an ack right before the connection went down,
+        // queues are cleared already and nothing would complete a new request
+        !self.is_closed()
     }
 
     /// Wait for wake-up, hand it over if waiter is dropped before it runs
